@@ -2,6 +2,7 @@ package rules
 
 import (
 	"fmt"
+	"go/constant"
 	"go/token"
 	"go/types"
 
@@ -171,14 +172,20 @@ func ruleC03Cache(c *Ctx) {
 		if !ok || core.CalleeKey(&kc.Call) != "net/url.URL.String" {
 			return
 		}
-		recv := kc.Call.Args[0]
-		if recv == urlParam {
-			byRetrieval = mu
-			return
+		// (the URIs may be gone through one after the other: for _, u := range [...]*url.URL{a, b} { cache[u.String()] = rs })
+		recvs := []ssa.Value{kc.Call.Args[0]}
+		if elems := fixedArrayElems(kc.Call.Args[0]); len(elems) > 0 {
+			recvs = elems
 		}
-		_, steps := c.accessPath(recv)
-		if len(steps) > 0 && steps[len(steps)-1].Field == "resolvedInfo.uri" {
-			byCanonical = mu
+		for _, recv := range recvs {
+			if recv == urlParam {
+				byRetrieval = mu
+				continue
+			}
+			_, steps := c.accessPath(recv)
+			if len(steps) > 0 && steps[len(steps)-1].Field == "resolvedInfo.uri" {
+				byCanonical = mu
+			}
 		}
 	})
 	for name, mu := range map[string]*ssa.MapUpdate{"retrieval-uri": byRetrieval, "canonical-uri": byCanonical} {
@@ -188,7 +195,7 @@ func ruleC03Cache(c *Ctx) {
 		}
 		dom := true
 		for _, d := range descents {
-			if !core.Dominates(mu, d) {
+			if !core.Dominates(mu, d) && !inFixedLoopBefore(mu, d) {
 				dom = false
 			}
 		}
@@ -1035,4 +1042,90 @@ func ruleC03BaseURIUsed(c *Ctx) {
 	}
 	walk(arg, site, map[ssa.Value]bool{})
 	c.R.Check(parsed, rule, "root-base:from-BaseURI", c.pos(site), "the base handed to the document resolver can be the parsed BaseURI", "the base URI handed to the document resolver for the root never comes from ResolveOptions.BaseURI: the option is ignored")
+}
+
+// fixedArrayElems: v is the element variable of a range over a local array literal; the values the literal holds.
+func fixedArrayElems(v ssa.Value) []ssa.Value {
+	var al *ssa.Alloc
+	switch x := v.(type) {
+	case *ssa.Index:
+		if ld, ok := x.X.(*ssa.UnOp); ok && ld.Op == token.MUL {
+			al, _ = ld.X.(*ssa.Alloc)
+		}
+	case *ssa.UnOp:
+		if ia, ok := x.X.(*ssa.IndexAddr); ok && x.Op == token.MUL {
+			al, _ = ia.X.(*ssa.Alloc)
+		}
+	}
+	if al == nil || al.Referrers() == nil {
+		return nil
+	}
+	if _, isArr := al.Type().Underlying().(*types.Pointer).Elem().Underlying().(*types.Array); !isArr {
+		return nil
+	}
+	var out []ssa.Value
+	for _, r := range *al.Referrers() {
+		ia, ok := r.(*ssa.IndexAddr)
+		if !ok || ia.Referrers() == nil {
+			continue
+		}
+		if _, isConst := ia.Index.(*ssa.Const); !isConst {
+			continue
+		}
+		for _, r2 := range *ia.Referrers() {
+			if st, ok := r2.(*ssa.Store); ok && st.Addr == ssa.Value(ia) {
+				out = append(out, st.Val)
+			}
+		}
+	}
+	return out
+}
+
+// inFixedLoopBefore: instruction a is executed on every iteration of a loop over a fixed, positive number of
+// elements (range over an array), and d comes after that loop: a is executed before d on every path.
+func inFixedLoopBefore(a, d ssa.Instruction) bool {
+	ab, db := a.Block(), d.Block()
+	for _, hb := range ab.Parent().Blocks {
+		if len(hb.Instrs) == 0 || len(hb.Succs) != 2 {
+			continue
+		}
+		iff, ok := hb.Instrs[len(hb.Instrs)-1].(*ssa.If)
+		if !ok {
+			continue
+		}
+		cmp, ok := iff.Cond.(*ssa.BinOp)
+		if !ok || cmp.Op != token.LSS {
+			continue
+		}
+		n, ok := cmp.Y.(*ssa.Const)
+		if !ok || n.Value == nil || n.Value.Kind() != constant.Int {
+			continue
+		}
+		if cnt, exact := constant.Int64Val(n.Value); !exact || cnt <= 0 {
+			continue
+		}
+		// the counter: -1, then +1 per iteration
+		add, ok := cmp.X.(*ssa.BinOp)
+		if !ok || add.Op != token.ADD {
+			continue
+		}
+		phi, ok := add.X.(*ssa.Phi)
+		if !ok || phi.Block() != hb {
+			continue
+		}
+		body, done := hb.Succs[0], hb.Succs[1]
+		if !body.Dominates(ab) || !done.Dominates(db) || len(done.Preds) != 1 {
+			continue
+		}
+		good := true
+		for _, p := range hb.Preds {
+			if hb.Dominates(p) && !ab.Dominates(p) {
+				good = false // an iteration can end without passing a
+			}
+		}
+		if good {
+			return true
+		}
+	}
+	return false
 }
